@@ -1,6 +1,6 @@
 //go:build verif
 
-// Generated by the snippet in notes/C04.md (one adapter per circl package); do not edit by hand.
+// One adapter per circl package (six near-identical blocks, see notes/C04-gen/gen.sh).
 package c04
 
 import (
